@@ -152,6 +152,14 @@ theorem Base.applyUpdate (u : Member) (b : Bool) (hu : okU u) : Pres P (Foca.app
   · exact B.membersApply u hu
   · exact B.handleApplySummary _ _ _
 
+theorem Base.applyExistingReport (u : Member) (cond : Member → Bool) (hu : okU u) :
+    Pres P (Foca.applyExistingReport E u cond) := by
+  unfold Foca.applyExistingReport
+  refine Pres.bind (B.membersApplyExistingIf u cond hu) (fun r => ?_)
+  split
+  · exact Pres.bind (B.handleApplySummary _ _ _) (fun _ => Pres.pure _)
+  · exact Pres.pure _
+
 theorem Base.broadcastLoop (ds : List Id) : Pres P (Foca.broadcastLoop E ds) := by
   induction ds with
   | nil => unfold Foca.broadcastLoop; exact Pres.pure _
@@ -235,10 +243,9 @@ theorem Full.probeSuspectFailed : Pres P (Foca.probeSuspectFailed E) := by
       (fun s => ⟨rfl, rfl, rfl, rfl, rfl, rfl, rfl, rfl, ProbeKeep.takeFailed _⟩)) s hs
   · split
     · rename_i failed hf
-      refine Pres.bind (F.membersApplyExistingIf _ _ (F.failedOk s failed hs hf)) (fun r => ?_)
+      refine Pres.bind (F.toBase.applyExistingReport _ _ (F.failedOk s failed hs hf)) (fun r => ?_)
       split
-      · refine Pres.bind (F.toBase.handleApplySummary _ _ _) (fun _ => ?_)
-        split
+      · split
         · exact Pres.bind Pres.getS (fun _ => Pres.emit _)
         · exact Pres.pure _
       · exact Pres.pure _
@@ -269,7 +276,7 @@ theorem Full.handleTimer (t : Timer) : Pres P (Foca.handleTimer E t) := by
     | exact F.removeDown _
     | exact F.toBase.chooseLoop _ _ _ _ _
     | exact F.toBase.pingReqLoop _ _
-    | exact F.membersApplyExistingIf _ _ (F.okDown _ _)
+    | exact F.toBase.applyExistingReport _ _ (F.okDown _ _)
     | exact F.toBase.handleApplySummary _ _ _
     | exact F.toBase.adjustConnectionState
     | exact F.sendMessage _ _
